@@ -14,7 +14,8 @@ _CFG["rips_intfull"] = {"quick": 300, "thorough": 20000}
 _SRC = ["c04_main.cpp", "c04_default.cpp", "c04_stable.cpp", "c04_fastp.cpp", "c04_full.cpp", "c04_fastcof.cpp", "c04_minimal.cpp", "c04_integral.cpp"]
 # low-count configs: 10-40 vertices, recursive clique enumeration as the model
 _MID = {"mid_" + n: {"quick": 64, "thorough": 4000} for n in ["full", "fastcof", "default", "stable"]}
-_FLOORS = {"graph.clique_number_4plus": 500, "blockers.blocked_and_higher_survives": 300, "cmp.added_simplices": 10000,
+_FLOORS = {"graph.some_negative_values": 1300, "graph.all_values_negative": 850, "graph.triangle_with_negative_edges_only": 590,
+           "graph.clique_number_4plus": 500, "blockers.blocked_and_higher_survives": 300, "cmp.added_simplices": 10000,
            "cmp.incremental_after_monotonisation": 500, "hist.one_shot_prefix_has_triangles_or_more": 150, "cmp.rips_matrix": 350, "cmp.rips_points": 350, "_distinct_nontrivial": 2000,
            # input classes added after the audit (about half of what seed 1 measures)
            "graph.empty": 230, "cmp.dimension_of_empty_complex": 250, "cmp.equal_to_model_tree": 11000,
@@ -26,7 +27,7 @@ _FLOORS = {"graph.clique_number_4plus": 500, "blockers.blocked_and_higher_surviv
            "cmp.rips_proximity_graph": 200, "cmp.rips_square_matrix": 200, "cmp.rips_second_create_complex": 300}
 SPEC = {
     "property": "C04",
-    "rule": "random weighted graphs on 0-9 vertices (the empty graph included; complete / sparse / medium / all-equal weights, 5-value grid so ties dominate, isolated vertices; "
+    "rule": "random weighted graphs on 0-9 vertices (the empty graph included; complete / sparse / medium / all-equal weights, 5-value grid so ties dominate, on a third of the graphs all values shifted by a negative multiple of the grid step so that cliques with only negative values exist, isolated vertices; "
             "labels contiguous, sparse, or sparse with INT_MAX / INT_MIN), max_dim 0-6 and {INT_MAX, INT_MIN, -1, -2, 100}. The 1-skeleton is handed over through insert_graph with a "
             "directedS (Proximity_graph) / undirectedS / bidirectionalS boost graph (random edge order and orientation, occasional duplicate edges of equal value) or vertex by vertex "
             "and edge by edge through insert_simplex (the only way for sparse labels). exp_*: skeleton+expansion, expansion_with_blockers(never) and expansion_with_blockers(P) for "
